@@ -156,7 +156,7 @@ def run(res, a):
     seeds = [a.seed] if a.tier != "thorough" else [a.seed, a.seed + 1, a.seed + 2]
     lines = []
     for sd in seeds:
-        # every scenario of the harness is a child with its own limits (24 GiB address space, no THP, 90/300 s); the whole run is bounded too
+        # every scenario of the harness is a child with its own limits (40 GiB address space, no THP, 90/300 s); the whole run is bounded too
         rc, out, err = vlib.run_split(["timeout", "-k", "5", "2400" if a.tier == "thorough" else "600", exe, str(sd), "1" if a.tier == "thorough" else "0"],
                                       timeout=2500 if a.tier == "thorough" else 650, env=vlib.clean_env())
         lines += out.splitlines()
